@@ -192,3 +192,13 @@ func envPrefix(flags byte, n int) []byte {
 func frame(flags byte, payload []byte) []byte {
 	return append(envPrefix(flags, len(payload)), payload...)
 }
+
+// strictCodec: like rawCodec, but - like JSON - it has no encoding of any value in zero bytes.
+type strictCodec struct{ rawCodec }
+
+func (c strictCodec) Unmarshal(data []byte, msg any) error {
+	if len(data) == 0 {
+		return errors.New("strict codec: unexpected end of input")
+	}
+	return c.rawCodec.Unmarshal(data, msg)
+}
